@@ -1,5 +1,5 @@
 (* C20: the smol model (async-broadcast with overflow, no await_active, inactive keeper, under
-   zlink-smol's adapters) refines the latest-value cell abs_impl *)
+   zlink-smol's adapters) refines the latest-value cell absZ_impl *)
 From ZV Require Import Notified.Notified Notified.NotifiedBase Notified.NotifiedTokio.
 Open Scope Z_scope.
 
@@ -28,8 +28,8 @@ Definition Rs (b : bool) (h : nat) (c : bchan) (l : list (option brx)) (a : acha
   (forall s r, nth_error l s = Some (Some r) -> lst_ok b (a_n a) (b_epoch c) r) /\
   (a_tx a = h /\ b_tx c = h /\ b_inactive c = h).
 
-Ltac prjs := cbn [b_queue b_head b_rx b_inactive b_closed b_epoch b_tx r_pos r_lst a_n a_last a_rx a_tx
-  ch_poll ch_set ch_sub ch_droprx ch_clone ch_droptx ch_new chan rx smol_impl abs_impl fst snd] in *.
+Ltac prjs := cbn [a_epoch b_queue b_head b_rx b_inactive b_closed b_epoch b_tx r_pos r_lst a_n a_last a_rx a_tx
+  ch_poll ch_set ch_sub ch_droprx ch_clone ch_droptx ch_new chan rx smol_impl absZ_impl fst snd] in *.
 
 (* ---- try_recv_at in the three situations *)
 Lemma recv_at_over c pos : pos < b_head c ->
@@ -126,7 +126,7 @@ Proof. induction l as [|[x|] l IH]; cbn; now rewrite ?IH. Qed.
 Lemma Rs_shape b h c l a m : Rs b h c l a m -> map livef l = map livef m.
 Proof. intros (<- & _). now rewrite map_livef_optmap. Qed.
 
-Lemma Rs_init : Rs true 1 (ch_new smol_impl) [] (ch_new abs_impl) [].
+Lemma Rs_init : Rs true 1 (ch_new smol_impl) [] (ch_new absZ_impl) [].
 Proof.
   cbn. unfold Rs; cbn. repeat split; auto; try lia.
   - intros s k H. destruct s; discriminate.
@@ -138,11 +138,11 @@ Lemma nth_map_pos l s r : nth_error l s = Some (Some r) ->
 Proof. intros H. erewrite map_nth_error; eauto. reflexivity. Qed.
 
 Lemma Rs_set h c l a m v : Rs true h c l a m ->
-  Rs true h (fst (ch_set smol_impl c v)) l (fst (ch_set abs_impl a v)) m /\
-  snd (ch_set smol_impl c v) = snd (ch_set abs_impl a v).
+  Rs true h (fst (ch_set smol_impl c v)) l (fst (ch_set absZ_impl a v)) m /\
+  snd (ch_set smol_impl c v) = snd (ch_set absZ_impl a v).
 Proof.
   intros (Hm & Ho & Hc & Hi & Hh & Hrx & Hl & Hb & Hq & Hls & Ha & Ht & Hin).
-  destruct c as [q hd rx ina closed ep tx], a as [an last arx atx]; prjs. unfold a_open in *; cbn [a_tx] in *. subst.
+  destruct c as [q hd rx ina closed ep tx], a as [an last arx atx aep]; prjs. unfold a_open in *; cbn [a_tx] in *. subst.
   unfold b_set, b_try_broadcast, a_set; prjs. cbn [negb].
   destruct (Nat.eqb (nlive (map (option_map r_pos) l)) 0) eqn:E.
   - cbn [b_await_active fst snd]. split; [|reflexivity]. unfold Rs; prjs. repeat split; auto.
@@ -174,10 +174,10 @@ Qed.
 
 Lemma Rs_sub h c l a m : Rs true h c l a m ->
   Rs true h (fst (ch_sub smol_impl c)) (l ++ [Some (snd (ch_sub smol_impl c))])
-          (fst (ch_sub abs_impl a)) (m ++ [Some (snd (ch_sub abs_impl a))]).
+          (fst (ch_sub absZ_impl a)) (m ++ [Some (snd (ch_sub absZ_impl a))]).
 Proof.
   intros (Hm & Ho & Hc & Hi & Hh & Hrx & Hl & Hb & Hq & Hls & Ha & Ht & Hin).
-  destruct c as [q hd rx ina closed ep tx], a as [an last arx atx]; prjs. unfold a_open in *; cbn [a_tx] in *. subst.
+  destruct c as [q hd rx ina closed ep tx], a as [an last arx atx aep]; prjs. unfold a_open in *; cbn [a_tx] in *. subst.
   unfold b_subscribe, a_sub; prjs.
   unfold Rs; prjs. rewrite map_app, nlive_app, nbehind_app, bit_ltb_false by lia. cbn [map option_map r_pos].
   repeat split; auto; try lia.
@@ -202,8 +202,8 @@ Qed.
 Lemma Rs_poll b h c l a m s r q : Rs b h c l a m ->
   nth_error l s = Some (Some r) -> nth_error m s = Some (Some q) ->
   Rs b h (fst (fst (ch_poll smol_impl c r))) (upd l s (Some (snd (fst (ch_poll smol_impl c r)))))
-       (fst (fst (ch_poll abs_impl a q))) (upd m s (Some (snd (fst (ch_poll abs_impl a q))))) /\
-  snd (ch_poll smol_impl c r) = snd (ch_poll abs_impl a q).
+       (fst (fst (ch_poll absZ_impl a q))) (upd m s (Some (snd (fst (ch_poll absZ_impl a q))))) /\
+  snd (ch_poll smol_impl c r) = snd (ch_poll absZ_impl a q).
 Proof.
   intros (Hm & Ho & Hc & Hi & Hh & Hrx & Hl & Hb & Hq & Hls & Ha & Ht & Hin) El Em.
   pose proof (nth_map_pos _ _ _ El) as Ep. rewrite Hm, Em in Ep. injection Ep as ->.
@@ -249,8 +249,8 @@ Qed.
 
 Lemma Rs_drop b h c l a m s r q : Rs b h c l a m ->
   nth_error l s = Some (Some r) -> nth_error m s = Some (Some q) ->
-  Rs b h (fst (ch_droprx smol_impl c r)) (upd l s None) (fst (ch_droprx abs_impl a q)) (upd m s None) /\
-  snd (ch_droprx smol_impl c r) = snd (ch_droprx abs_impl a q).
+  Rs b h (fst (ch_droprx smol_impl c r)) (upd l s None) (fst (ch_droprx absZ_impl a q)) (upd m s None) /\
+  snd (ch_droprx smol_impl c r) = snd (ch_droprx absZ_impl a q).
 Proof.
   intros (Hm & Ho & Hc & Hi & Hh & Hrx & Hl & Hb & Hq & Hls & Ha & Ht & Hin) El Em.
   pose proof (nth_map_pos _ _ _ El) as Ep. rewrite Hm, Em in Ep. injection Ep as ->.
@@ -285,7 +285,7 @@ Proof.
 Qed.
 
 Lemma Rs_clone h c l a m : Rs true (S h) c l a m ->
-  Rs true (S (S h)) (ch_clone smol_impl c) l (ch_clone abs_impl a) m.
+  Rs true (S (S h)) (ch_clone smol_impl c) l (ch_clone absZ_impl a) m.
 Proof.
   intros (Hm & Ho & Hc & Hi & Hh & Hrx & Hl & Hb & Hq & Hls & Ha & Ht & Hin).
   unfold Rs; cbn. unfold a_open in *; cbn. rewrite Ha, Ht, Hin. repeat split; auto.
@@ -298,10 +298,10 @@ Qed.
 
 (* dropping a handle closes the channel only when it was the last one *)
 Lemma Rs_droptx h c l a m : Rs true (S h) c l a m ->
-  Rs (alive h) h (ch_droptx smol_impl c) l (ch_droptx abs_impl a) m.
+  Rs (alive h) h (ch_droptx smol_impl c) l (ch_droptx absZ_impl a) m.
 Proof.
   intros (Hm & Ho & Hc & Hi & Hh & Hrx & Hl & Hb & Hq & Hls & Ha & Ht & Hin).
-  destruct c as [q hd rx ina closed ep tx], a as [an last arx atx]; prjs. unfold a_open in *; cbn [a_tx] in *.
+  destruct c as [q hd rx ina closed ep tx], a as [an last arx atx aep]; prjs. unfold a_open in *; cbn [a_tx] in *.
   subst closed tx ina atx. cbn [negb] in *.
   unfold b_drop_state, a_droptx; prjs. cbn [Nat.sub]. rewrite !Nat.sub_0_r.
   destruct h as [|h'].
@@ -326,19 +326,19 @@ Definition Ros (nf : bool) (s : sonce) (a : aonce) : Prop :=
   | AFinished => nf = false /\ so_term s = true
   end.
 
-Lemma Ros_init : Ros true (on_new smol_impl) (on_new abs_impl).
+Lemma Ros_init : Ros true (on_new smol_impl) (on_new absZ_impl).
 Proof. cbn. auto 10. Qed.
 
 Lemma Ros_notify s a v : Ros true s a ->
-  Ros false (fst (on_notify smol_impl s v)) (fst (on_notify abs_impl a v)) /\
-  snd (on_notify smol_impl s v) = snd (on_notify abs_impl a v).
+  Ros false (fst (on_notify smol_impl s v)) (fst (on_notify absZ_impl a v)) /\
+  snd (on_notify smol_impl s v) = snd (on_notify absZ_impl a v).
 Proof.
   destruct a; cbn; intros (E & H); try discriminate. destruct H as (Q & C & T & L).
   unfold so_notify. rewrite C, Q. cbn. repeat split; auto.
   unfold lst_past; cbn. destruct L as [-> | ->]; auto.
 Qed.
 
-Lemma Ros_drop s a : Ros true s a -> Ros false (on_drop smol_impl s) (on_drop abs_impl a).
+Lemma Ros_drop s a : Ros true s a -> Ros false (on_drop smol_impl s) (on_drop absZ_impl a).
 Proof.
   destruct a; cbn; intros (E & H); try discriminate. destruct H as (Q & C & T & L).
   unfold so_drop. rewrite C. cbn. repeat split; auto.
@@ -346,10 +346,10 @@ Proof.
 Qed.
 
 Lemma Ros_poll nf s a : Ros nf s a ->
-  Ros nf (fst (on_poll smol_impl s)) (fst (on_poll abs_impl a)) /\
-  snd (on_poll smol_impl s) = snd (on_poll abs_impl a).
+  Ros nf (fst (on_poll smol_impl s)) (fst (on_poll absZ_impl a)) /\
+  snd (on_poll smol_impl s) = snd (on_poll absZ_impl a).
 Proof.
-  destruct a; cbn [Ros on_poll smol_impl abs_impl ao_poll fst snd].
+  destruct a; cbn [Ros on_poll smol_impl absZ_impl ao_poll fst snd].
   - intros (E & Q & C & T & L). unfold so_poll. rewrite T.
     destruct L as [L|L]; rewrite L.
     + rewrite Q, C. cbn. auto 10.
@@ -367,9 +367,9 @@ Proof.
   - intros (E & T). unfold so_poll. rewrite T. cbn. auto.
 Qed.
 
-Theorem smol_refines_abs ops : run smol_impl ops = run abs_impl ops.
+Theorem smol_refines_absZ ops : run smol_impl ops = run absZ_impl ops.
 Proof.
-  apply (sim_run smol_impl abs_impl (fun h => Rs (alive h) h) Ros).
+  apply (sim_run smol_impl absZ_impl (fun h => Rs (alive h) h) Ros).
   - intros; eapply Rs_shape; eauto.
   - exact Rs_init.
   - intros; now apply Rs_set.
@@ -383,3 +383,188 @@ Proof.
   - intros; now apply Ros_drop.
   - intros; now apply Ros_poll.
 Qed.
+
+(* ---------------------------------------------------------------- with the waker *)
+(* what a poll leaves in the listener, and that only broadcast and close notify *)
+Lemma Rs_poll_shape b h c l a m s r : Rs b h c l a m -> nth_error l s = Some (Some r) ->
+  b_epoch (fst (fst (b_stream_poll 3 c r))) = b_epoch c /\
+  r_lst (snd (fst (b_stream_poll 3 c r))) =
+  match snd (b_stream_poll 3 c r) with OPending => Some (b_epoch c) | _ => None end.
+Proof.
+  intros (Hm & Ho & Hc & Hi & Hh & Hrx & Hl & Hb & Hq & Hls & Ha & Ht & Hin) El.
+  pose proof (nth_map_pos _ _ _ El) as Em. rewrite Hm in Em.
+  pose proof (Hls _ _ El) as Lr. pose proof (Hb _ _ Em) as Lb.
+  destruct (waiting c r) eqn:W.
+  - rewrite s_poll_waiting by auto. cbn [fst snd]. split; auto.
+    unfold waiting in W. unfold lst_ok in Lr. destruct (r_lst r) as [e|]; [|discriminate].
+    destruct Lr as [Le _]. f_equal. destruct (Nat.ltb_spec e (b_epoch c)); [discriminate|lia].
+  - destruct (Z.ltb_spec (r_pos r) (a_n a)) as [L|L].
+    + pose proof (nbehind_pos _ _ _ _ Em L) as Hn.
+      destruct Hq as [[_ Z0]|[Q _]]; [lia|].
+      assert (Hh' : b_head c + 1 = a_n a) by (rewrite Q in Hh; cbn in Hh; lia).
+      rewrite (s_poll_behind _ _ _ _ W Q Hn) by lia. cbn [fst snd r_lst].
+      split; [apply taken_epoch|reflexivity].
+    + rewrite s_poll_uptodate by (auto; lia). destruct (b_closed c); cbn [fst snd r_lst]; auto.
+Qed.
+
+Lemma Rs_drop_epoch b h c l a m s r : Rs b h c l a m -> nth_error l s = Some (Some r) ->
+  b_epoch (fst (b_droprx c r)) = b_epoch c.
+Proof.
+  intros (Hm & Ho & Hc & Hi & Hh & Hrx & Hl & Hb & Hq & Hls & Ha & Ht & Hin) El.
+  pose proof (nth_map_pos _ _ _ El) as Em. rewrite Hm in Em. pose proof (Hb _ _ Em) as Lb.
+  unfold b_droprx.
+  destruct (Z.ltb_spec (r_pos r) (a_n a)) as [L|L].
+  - pose proof (nbehind_pos _ _ _ _ Em L) as Hn.
+    destruct Hq as [[_ Z0]|[Q _]]; [lia|].
+    assert (Hh' : b_head c + 1 = a_n a) by (rewrite Q in Hh; cbn in Hh; lia).
+    rewrite (s_drain_behind _ _ _ _ Q Hn) by lia. cbn [fst].
+    unfold b_taken. destruct (Nat.eqb (nbehind (a_n a) m - 1) 0); prjs;
+      rewrite (close_channel_noop b h) by (prjs; auto); reflexivity.
+  - rewrite s_drain_uptodate by lia. cbn [fst].
+    rewrite (close_channel_noop b h) by (prjs; auto). reflexivity.
+Qed.
+
+Lemma Rs_set_epoch h c l a m v : Rs true h c l a m ->
+  b_epoch (fst (b_set c v)) = if Nat.eqb (a_rx a) 0 then b_epoch c else S (b_epoch c).
+Proof.
+  intros (Hm & Ho & Hc & Hi & Hh & Hrx & Hl & Hb & Hq & Hls & Ha & Ht & Hin).
+  unfold b_set, b_try_broadcast. rewrite Hc, Hrx. cbn [negb].
+  destruct (Nat.eqb (a_rx a) 0); [reflexivity|].
+  unfold b_overflow. cbn [negb]. rewrite andb_false_r. reflexivity.
+Qed.
+
+Lemma Rs_droptx_epoch h c l a m : Rs true (S h) c l a m ->
+  b_epoch (b_drop_state c) = if Nat.eqb (S h) 1 then S (b_epoch c) else b_epoch c.
+Proof.
+  intros (Hm & Ho & Hc & Hi & Hh & Hrx & Hl & Hb & Hq & Hls & Ha & Ht & Hin).
+  destruct c as [q hd rx ina closed ep tx]; prjs. subst closed tx ina. cbn [negb].
+  unfold b_drop_state; prjs. cbn [Nat.sub]. rewrite !Nat.sub_0_r.
+  destruct h as [|h'].
+  - cbn [Nat.eqb]. unfold b_close at 1; prjs. unfold b_close_channel, b_close; prjs.
+    rewrite Tauto.if_same. reflexivity.
+  - cbn [Nat.eqb]. unfold b_close_channel; prjs. cbn [Nat.eqb]. rewrite andb_false_r. reflexivity.
+Qed.
+
+Definition Rsw (h : nat) (c : bchan) (l : list (option brx)) (a : achan) (m : list (option brx)) : Prop :=
+  l = m /\ b_epoch c = a_epoch a /\ Rs (alive h) h c l a (pos m).
+
+Lemma Rsw_shape h c l a m : Rsw h c l a m -> map livef l = map livef m.
+Proof. intros (-> & _). reflexivity. Qed.
+
+Lemma Rsw_init : Rsw 1 (ch_new smol_impl) [] (ch_new abs_impl) [].
+Proof. split; [reflexivity|]. split; [reflexivity|]. exact Rs_init. Qed.
+
+Lemma Rsw_set h c l a m v : Rsw (S h) c l a m ->
+  Rsw (S h) (fst (ch_set smol_impl c v)) l (fst (ch_set abs_impl a v)) m /\
+  snd (ch_set smol_impl c v) = snd (ch_set abs_impl a v).
+Proof.
+  intros (-> & Ee & HR). destruct (Rs_set (S h) c m a (pos m) v HR) as [HR' Eo].
+  split; [|exact Eo]. split; [reflexivity|]. split; [|exact HR'].
+  change (b_epoch (fst (b_set c v)) = a_epoch (fst (a_set a v))).
+  rewrite (Rs_set_epoch _ _ _ _ _ v HR). unfold a_set.
+  destruct (Nat.eqb (a_rx a) 0); cbn; congruence.
+Qed.
+
+Lemma Rsw_sub h c l a m : Rsw (S h) c l a m ->
+  Rsw (S h) (fst (ch_sub smol_impl c)) (l ++ [Some (snd (ch_sub smol_impl c))])
+            (fst (ch_sub abs_impl a)) (m ++ [Some (snd (ch_sub abs_impl a))]).
+Proof.
+  intros (-> & Ee & HR). pose proof (Rs_sub (S h) c m a (pos m) HR) as HR'.
+  cbn [ch_sub smol_impl abs_impl absZ_impl b_subscribe a_subw a_sub fst snd] in *.
+  assert (Ep : b_head c + Z.of_nat (length (b_queue c)) = a_n a).
+  { destruct HR as (_ & _ & _ & _ & Hh & _). exact Hh. }
+  split; [now rewrite Ep|]. split; [exact Ee|]. rewrite pos_app. cbn [r_pos]. exact HR'.
+Qed.
+
+Lemma Rsw_poll h c l a m s r q : Rsw h c l a m ->
+  nth_error l s = Some (Some r) -> nth_error m s = Some (Some q) ->
+  Rsw h (fst (fst (ch_poll smol_impl c r))) (upd l s (Some (snd (fst (ch_poll smol_impl c r)))))
+        (fst (fst (ch_poll abs_impl a q))) (upd m s (Some (snd (fst (ch_poll abs_impl a q))))) /\
+  snd (ch_poll smol_impl c r) = snd (ch_poll abs_impl a q).
+Proof.
+  intros (-> & Ee & HR) El Em. rewrite El in Em. injection Em as <-.
+  destruct (Rs_poll _ h c m a (pos m) s r (r_pos r) HR El (pos_nth _ _ _ El)) as [HR' Eo].
+  destruct (Rs_poll_shape _ h c m a (pos m) s r HR El) as [E1 E3].
+  cbn [ch_poll smol_impl abs_impl absZ_impl] in *. unfold a_pollw.
+  assert (E2 : a_epoch (fst (fst (a_poll a (r_pos r)))) = a_epoch a).
+  { unfold a_poll. destruct (r_pos r <? a_n a); reflexivity. }
+  destruct (b_stream_poll 3 c r) as [[c1 r1] o1]. cbn [fst snd] in *.
+  destruct (a_poll a (r_pos r)) as [[a1 k1] o2]. cbn [fst snd] in *. subst o2.
+  assert (Ek : r_pos r1 = k1).
+  { destruct HR' as (El' & _). rewrite map_upd in El'. cbn [option_map] in El'.
+    apply (upd_inj_same _ _ _ _ _ _ _ (pos_nth _ _ _ El)) in El'. congruence. }
+  split; [|reflexivity].
+  split.
+  { f_equal. f_equal. destruct r1 as [p1 l1]. cbn [r_pos r_lst] in *. subst k1. f_equal.
+    rewrite E3, E2, <- Ee. reflexivity. }
+  split; [congruence|]. rewrite pos_upd. cbn [option_map r_pos]. exact HR'.
+Qed.
+
+Lemma Rsw_drop h c l a m s r q : Rsw h c l a m ->
+  nth_error l s = Some (Some r) -> nth_error m s = Some (Some q) ->
+  Rsw h (fst (ch_droprx smol_impl c r)) (upd l s None) (fst (ch_droprx abs_impl a q)) (upd m s None) /\
+  snd (ch_droprx smol_impl c r) = snd (ch_droprx abs_impl a q).
+Proof.
+  intros (-> & Ee & HR) El Em. rewrite El in Em. injection Em as <-.
+  destruct (Rs_drop _ h c m a (pos m) s r (r_pos r) HR El (pos_nth _ _ _ El)) as [HR' Eo].
+  pose proof (Rs_drop_epoch _ h c m a (pos m) s r HR El) as E1.
+  cbn [ch_droprx smol_impl abs_impl absZ_impl] in *.
+  split; [|exact Eo]. split; [reflexivity|]. split; [|rewrite pos_upd; exact HR'].
+  change (b_epoch (fst (b_droprx c r)) = a_epoch (fst (a_droprx a (r_pos r)))).
+  rewrite E1. unfold a_droprx. cbn. exact Ee.
+Qed.
+
+Lemma Rsw_clone h c l a m : Rsw (S h) c l a m ->
+  Rsw (S (S h)) (ch_clone smol_impl c) l (ch_clone abs_impl a) m.
+Proof.
+  intros (-> & Ee & HR). split; [reflexivity|]. split; [exact Ee|]. now apply Rs_clone.
+Qed.
+
+Lemma Rsw_droptx h c l a m : Rsw (S h) c l a m ->
+  Rsw h (ch_droptx smol_impl c) l (ch_droptx abs_impl a) m.
+Proof.
+  intros (-> & Ee & HR). split; [reflexivity|]. split; [|now apply Rs_droptx].
+  change (b_epoch (b_drop_state c) = a_epoch (a_droptx a)). rewrite (Rs_droptx_epoch _ _ _ _ _ HR).
+  destruct HR as (_ & _ & _ & _ & _ & _ & _ & _ & _ & _ & Ha & _). unfold a_droptx. cbn [a_epoch].
+  rewrite Ha, Ee. reflexivity.
+Qed.
+
+Lemma smol_parked st st' : sim smol_impl abs_impl Rsw Ros st st' ->
+  forall s, parked_in smol_impl st s = parked_in abs_impl st' s.
+Proof.
+  intros (_ & _ & (El & Ee & _) & _) s. unfold parked_in. rewrite El.
+  cbn [rx smol_impl abs_impl rx_waiting] in *. rewrite Ee. reflexivity.
+Qed.
+
+Section SmolWake.
+Let S0 := Rsw_shape.
+Let S1 := Rsw_init.
+Let S2 := fun h c l d m v H => Rsw_set h c l d m v H.
+Let S3 := fun h c l d m H => Rsw_sub h c l d m H.
+Let S4 := fun h c l d m s r q H A B => Rsw_poll h c l d m s r q H A B.
+Let S5 := fun h c l d m s r q H A B => Rsw_drop h c l d m s r q H A B.
+Let S6 := fun h c l d m H => Rsw_clone h c l d m H.
+Let S7 := fun h c l d m H => Rsw_droptx h c l d m H.
+Let S8 := Ros_init.
+Let S9 := fun a b v H => Ros_notify a b v H.
+Let S10 := fun a b H => Ros_drop a b H.
+Let S11 := fun nf a b H => Ros_poll nf a b H.
+
+Theorem smol_refines_abs ops : run smol_impl ops = run abs_impl ops.
+Proof. exact (sim_run smol_impl abs_impl Rsw Ros S0 S1 S2 S3 S4 S5 S6 S7 S8 S9 S10 S11 ops). Qed.
+
+Theorem smol_wakes_abs ops : wakes smol_impl ops = wakes abs_impl ops.
+Proof.
+  exact (sim_wakes smol_impl abs_impl Rsw Ros S0 S1 S2 S3 S4 S5 S6 S7 S8 S9 S10 S11 smol_parked ops).
+Qed.
+
+Theorem smol_parked_abs ops s : parked smol_impl ops s = parked abs_impl ops s.
+Proof.
+  exact (sim_parked smol_impl abs_impl Rsw Ros S0 S1 S2 S3 S4 S5 S6 S7 S8 S9 S10 S11 smol_parked ops s).
+Qed.
+
+Theorem smol_woken_abs ops o : woken smol_impl ops o = woken abs_impl ops o.
+Proof.
+  exact (sim_woken smol_impl abs_impl Rsw Ros S0 S1 S2 S3 S4 S5 S6 S7 S8 S9 S10 S11 smol_parked ops o).
+Qed.
+End SmolWake.
